@@ -999,6 +999,8 @@ class SymBytesBase:
         return len(self.find_positions(bytes(item))[:1]) > 0
 
     def decode(self, encoding="utf-8", errors="strict"):
+        if encoding.lower().replace("-", "").replace("_", "") == "utf8":
+            return self._decode_utf8(errors)
         if encoding.lower().replace("-", "") not in ("latin1", "iso88591"):
             raise Inconclusive(f"decode({encoding}) on symbolic bytes")
         r = View(self, 0, self.length) if not isinstance(self, (Vec, Conc)) else Vec(list(self._items()))
@@ -1006,6 +1008,8 @@ class SymBytesBase:
         return r
 
     def encode(self, encoding="utf-8", errors="strict"):
+        if encoding.lower().replace("-", "").replace("_", "") == "utf8":
+            return self._encode_utf8()
         if encoding.lower().replace("-", "") not in ("latin1", "iso88591"):
             raise Inconclusive(f"encode({encoding}) on symbolic str")
         r = View(self, 0, self.length) if not isinstance(self, (Vec, Conc)) else Vec(list(self._items()))
@@ -1014,6 +1018,60 @@ class SymBytesBase:
 
     def _items(self):
         return [self._at(i) for i in range(self.clen())]
+
+    # UTF-8 for text whose characters are code points 0..255 (all this representation holds): one fork per
+    # symbolic character / lead byte
+    def _encode_utf8(self):
+        if self.clen() is None:
+            raise Inconclusive("encode(utf-8) on text of symbolic length")
+        out = []
+        for ch in self._items():
+            if isinstance(ch, int):
+                out.extend(chr(ch).encode("utf-8"))
+            elif bool(ch < 128):
+                out.append(ch)
+            else:
+                out.append((ch >> 6) | 0xC0)
+                out.append((ch & 0x3F) | 0x80)
+        r = Vec(out)
+        r.is_text = False
+        return r
+
+    def _decode_utf8(self, errors):
+        if errors != "strict":
+            raise Inconclusive(f"decode(utf-8, {errors}) on symbolic bytes")
+        if self.clen() is None:
+            raise Inconclusive("decode(utf-8) on bytes of symbolic length")
+        items = self._items()
+        n = len(items)
+
+        def bad(i, why):
+            return UnicodeDecodeError("utf-8", b"\x00" * n, i, i + 1, why)
+
+        def cont(j):
+            return j < n and bool(And(items[j] >= 0x80, items[j] <= 0xBF))
+        out, i = [], 0
+        while i < n:
+            b = items[i]
+            if bool(b < 128):
+                out.append(b)
+                i += 1
+            elif bool(b < 0xC2):
+                raise bad(i, "invalid start byte")
+            elif bool(b <= 0xC3):
+                if not cont(i + 1):
+                    raise bad(i, "invalid continuation byte" if i + 1 < n else "unexpected end of data")
+                out.append(((b & 3) << 6) | (items[i + 1] & 0x3F))
+                i += 2
+            elif bool(b > 0xF4):
+                raise bad(i, "invalid start byte")
+            else:
+                if not cont(i + 1):
+                    raise bad(i, "invalid continuation byte" if i + 1 < n else "unexpected end of data")
+                raise Inconclusive("utf-8 sequence for a code point above 255 in symbolic bytes")
+        r = Vec(out)
+        r.is_text = True
+        return r
 
     def strip(self, chars=None):
         """leading/trailing whitespace removed (forks on the symbolic characters at the ends)"""
